@@ -4,6 +4,7 @@ CONSTANTS
   NApp = 1
   Ctls = {1, 2}
   AppendUnderLock = TRUE
+  DropUnderLock = TRUE
 SPECIFICATION FairSpec
 PROPERTY Terminates
 CHECK_DEADLOCK FALSE
